@@ -418,6 +418,21 @@ class Builder:
                         return r["name"]
         return None
 
+    def loops_over_inside(self, x, name, depth=0):
+        """does the tree contain a loop over the iterator local `name` (`if let Some(h) = it.next() { ..; for y in it {..} }`)"""
+        if not isinstance(x, tuple) or not x or depth > 8:
+            return False
+        if self.loop_over(x) == name:
+            return True
+        k = x[0]
+        if k == "seq":
+            return any(self.loops_over_inside(y, name, depth + 1) for y in x[1])
+        if k == "alt":
+            return any(self.loops_over_inside(b, name, depth + 1) for _, b in x[1])
+        if k in ("loop", "star", "star1", "sepby"):
+            return self.loops_over_inside(x[1], name, depth + 1)
+        return False
+
     def first_of_list(self, gd):
         """is the guard `let Some(..) = X.split_first()` / `.first()` / `.split_last()` / `.last()` (X not an iterator)"""
         ge = gd.get("e")
@@ -513,7 +528,7 @@ class Builder:
                     del self.fixed[g]
                 return
             nx = self.next_guard(x)
-            if nx is not None and nx not in self.iter_state and any(self.loop_over(y) == nx for y in items[i + 1:]):
+            if nx is not None and nx not in self.iter_state and (any(self.loop_over(y) == nx for y in items[i + 1:]) or self.loops_over_inside(x, nx)):
                 # `if let Some(x) = it.next() {..}  for x in it {..}`: the loop runs only if the first element existed
                 for val in ("rest",):     # clause lists are taken as non-empty where they are rendered (as for plain loops)
                     self.iter_state[nx] = val
